@@ -239,7 +239,7 @@ def correspondence(ctx):
     # ---------------- 1. every evaluator vs the Float model, every order, several layouts
     lines, meta = [], []
     for fam, (impl, drv, (lo, hi), maxn, exact) in FAMS.items():
-        plist = params_for(fam, rng, scale(2, 12))
+        plist = params_for(fam, rng, scale(2, 40))
         orders = list(range(0, maxn + 1))
         for n in orders:
             # quick: rotate parameters / layouts over the orders; thorough: all parameters, all layouts
@@ -310,7 +310,7 @@ def correspondence(ctx):
                          note=f'shape {np.shape(out)} vs {np.shape(pts)}')
 
     # ---------------- 2. textbook definitions on the real code (the property's own predicate)
-    nmax_tb = scale(16, 30)
+    nmax_tb = scale(16, 40)
     for fam, (impl, drv, (lo, hi), maxn, exact) in FAMS.items():
         plist = params_for(fam, rng, 0)
         for n in range(0, min(maxn, nmax_tb) + 1):
@@ -560,6 +560,31 @@ def _orthogonality(ctx, p):
                       f'<S_m\', S_n\'> deviates from delta by {E[i, j]:.3e} under Forbes\' weight 1/sqrt(1-u^2)')
 
 
+    # 2D-Q: gradients of S_n^m = u^m Q_n^m(u^2) cos(m theta) are orthonormal under Forbes' weight:
+    #   (1/pi^2) int_0^2pi int_0^1 grad S_a . grad S_b / sqrt(1-u^2) du dtheta = delta ; for equal m the angular part gives pi, so
+    #   int_0^1 [R_a' R_b' + m^2 R_a R_b / u^2] / sqrt(1-u^2) du = pi delta_ab   (different m / sin-cos: orthogonal by the angular integral)
+    NQ = ctx.scale(5, 9)
+    for m in range(1, ctx.scale(4, 7)):
+        deg = 2 * NQ + m + 2
+        K = 2 * deg + 2
+        uk = np.cos(math.pi * (np.arange(K) + 0.5) / K)
+        R, D = [], []
+        for n in range(NQ + 1):
+            vals = p.Q2d(n, m, np.abs(uk), np.zeros_like(uk))
+            vals = np.where(uk >= 0, vals, (-1) ** m * vals)          # R(-u) = (-1)^m R(u): polynomial extension
+            c = cheb.chebfit(uk, vals, deg)
+            R.append(cheb.chebval(uk, c))
+            D.append(cheb.chebval(uk, cheb.chebder(c)))
+        R, D = np.array(R), np.array(D)
+        G = (D[:, None, :] * D[None, :, :] + m * m * R[:, None, :] * R[None, :, :] / uk ** 2).sum(-1) * (math.pi / K) * 0.5 / math.pi
+        E = G - np.eye(NQ + 1)
+        ctx.case('ortho:q2d-gradients', {'m': m, 'max_n': NQ}, nontrivial=True, tag='tested-not-proved')
+        if np.abs(E).max() > 1e-8:
+            i, j = np.unravel_index(np.abs(E).argmax(), E.shape)
+            ctx.pred_fail('ortho:q2d-gradients', {'m': m, 'n': int(i), 'n2': int(j)},
+                          f'<grad S_n^m, grad S_n2^m> deviates from delta by {E[i, j]:.3e} under Forbes\' weight 1/sqrt(1-u^2)')
+
+
 # ------------------------------------------------------------------------------------------------
 # search / replay: the property predicate on the real code = "equals the independent textbook formula"
 # ------------------------------------------------------------------------------------------------
@@ -642,14 +667,15 @@ def replay(inp):
     _clear_caches()
     c = inp['input']
     print('replaying', inp['item'], c)
-    if c.get('family') == 'ortho':
+    if c.get('family') == 'ortho' or str(inp.get('item', '')).startswith('ortho:'):
+        which = c.get('which', inp.get('item'))
         sub = C.Ctx('C07', 'quick', 0)
         try:
             _orthogonality(sub, p)
         except Exception as ex:       # noqa
             print('raised', type(ex).__name__, ex)
             return True
-        bad = [f for f in sub.pred_failures if f['item'] == c['which']]
+        bad = [f for f in sub.pred_failures if f['item'] == which]
         for f in bad[:3]:
             print(f['detail'])
         return bool(bad)
@@ -685,11 +711,11 @@ MANIFEST_ENTRY = {
              'Mathlib Polynomial.hermite, hermite_H(x) = s^n He_n(s x) for s^2=2; dickson1/2 = Mathlib Polynomial.dickson 1/2; '
              'laguerre satisfies DLMF 18.9.13; Zernike/Qcon/XY/Hopkins wiring equals their definitions (sqrt, sin, cos as parameters); '
              'Zernike norm^2 = 2(n+1)/(1+delta_m0).  TESTED ONLY (not proved): orthogonality of Jacobi/Chebyshev/Legendre/Hermite/'
-             'Laguerre under their weights, Zernike orthonormality over the disk, orthonormal Qbfs slopes — Gauss quadrature exact '
+             'Laguerre under their weights, Zernike orthonormality over the disk, orthonormal Qbfs slopes and 2D-Q gradients — Gauss quadrature exact '
              'in the degree, orders up to the tier bound; the full statements are kept as `…_full : Prop` in Props/C07.lean.  '
              'MODELLED AND COMPARED: every evaluator vs the Lean model on Float (1e-9) for orders 0..40, scalar/0-D/1-D/2-D/3-D points, '
              'and exactly on Fraction inputs vs the Rat model where the code path has no float literal; explicit DLMF sums as '
-             'independent oracles.  NOT COVERED: 2D-Q (Q2d) values beyond the C08 seq-vs-scalar comparison, the explicit-sum form of '
+             'independent oracles.  NOT COVERED: a Lean model of the 2D-Q (Q2d) values (they are tested through gradient orthonormality and the C08 seq-vs-scalar comparison only), the explicit-sum form of '
              'Jacobi for all n (stretch), float rounding at very high order, cupy/torch backends.'),
     'note': ('Trusted: Lean kernel + propext/Classical.choice/Quot.sound; tools/gen_c07.py (Python statements -> Lean; element-wise '
              'NumPy read point-wise; validated each run by executing the hand model next to the real functions); libm sqrt/sin/cos; '
